@@ -177,16 +177,17 @@ def nontrivial(case, out):
 
 
 PARTIAL = ('serializer totality, balanced indentation, buffer growth, Junk and comment emission are proved for ALL trees; the round trip and the '
-           'fixed point are stated in full (C04_roundtrip_statement, C04_fixpoint_statement) but proved only for the fragment of C02 '
-           '(simple_resource); for all other parser outputs they are decided by the round-trip oracle on the implementation. The full '
-           'statements are refuted on the current tree by the known findings D7 and D21 (theorems ..._refuted_by_D7/_D21).')
+           'fixed point are stated in full (C04_roundtrip_statement, C04_fixpoint_statement) but proved only for the fragment sml_resource (parser outputs whose values are multi-line patterns of text and simple '
+           'placeables, attached comments, attributes — it contains the parser tree of EVERY layout of every tree of C02\'s multi-line fragment); '
+           'for all other parser outputs (selects, calls) they are decided by the round-trip oracle on the implementation. The full '
+           'statements are refuted on the current tree by the known finding D7 (theorems ..._refuted_by_D7).')
 
 MANIFEST = {
     'text': 'Rocq theorems about the Gallina transliteration of the serializer (SerializerModel.v): never panics and restores the indent '
             'level for ALL trees; Junk verbatim / skipped; comment line format; round trip and fixed point PROVED for the fragment '
-            'simple_resource (composed with the parser model), and checked for every other parser output by running '
+            'sml_resource (multi-line values in the split form the parser returns, attached comments, attributes; composed with the parser model), and checked for every other parser output by running '
             'parse/serialize/parse/serialize on the extracted model and on the real crate and comparing both trees and both texts.',
-    'note': 'PARTIAL proof of the round trip (fragment). Trusted: as C01 plus String operations as list operations. Known findings D7, D21.',
+    'note': 'PARTIAL proof of the round trip (fragment). Trusted: as C01 plus String operations as list operations. Known findings D7, D30.',
     'technique': 'Rocq proof (writer invariants for all trees; print/parse round trip for a fragment) + differential correspondence check + round-trip oracle',
     'design_ref': 'DESIGN.md §4 C04, §10',
 }
